@@ -110,6 +110,9 @@ func (g *opGen) next(cur *model.Tree) sess.Op {
 		return op
 	}
 	op.SrcKind = g.srcs[r.Intn(len(g.srcs))]
+	if op.SrcKind == "xml" {
+		op.Interleave = r.Chance(1, 2)
+	}
 	loc, _ := cur.Resolve(at)
 	if loc.Tree == nil && loc.List != nil {
 		// entry point is the list itself
